@@ -189,6 +189,34 @@ def run(ctx) -> None:
                    % (source.qualname(fn).split(".")[-1], why),
                    construct="%s in %s" % (short(call, 70), source.qualname(fn).split(".")[-1]))
     ctx.floor("C03.R7-fresh-variable-scope", n7, 4, "override_object merges in apply_replicate / propagate_replicate")
+    # ... and the layers go on in the order of their priority: global, then the stage's variables, then the component's own - the
+    # component's `N: 3` beats the stage's `N: 2` when `replicate: %(N)s` is resolved (seed C03-15: the two merges swapped)
+    for fn in (m.func("FlowIR.apply_replicate"), m.func("FlowIR.propagate_replicate")):
+        merges = sorted([c for c in source.calls_in(fn, include_nested=False) if last_attr(c) == "override_object" and len(c.args) == 2
+                         and isinstance(c.args[1], ast.Name)], key=lambda c: (c.lineno, c.col_offset))
+
+        def layer_kind(name: str) -> str:
+            vals = match.assigned_value(fn, name)
+            txt = " ".join(source.src(v) for v in vals)
+            if "LabelStages" in txt:
+                return "stage"
+            if "'variables'" in txt or '"variables"' in txt:
+                return "component"
+            return "?"
+        by_loop: Dict[int, List] = {}
+        for c in merges:
+            by_loop.setdefault(id(innermost_loop(c, fn)), []).append(c)
+        for group in by_loop.values():
+            kinds = [layer_kind(c.args[1].id) for c in group]
+            if "stage" not in kinds or "component" not in kinds:
+                continue
+            ok = kinds.index("component") > max(i for i, k in enumerate(kinds) if k == "stage") and "?" not in kinds
+            ctx.ob("C03.R7-fresh-variable-scope", group[0], ok,
+                   "%s: the scope is layered global, stage, component" % fn.name if ok else
+                   "%s layers the scope that resolves replicate/aggregate as %s: the stage's variables are applied AFTER the component's own, so a "
+                   "component that sets `N: 3` for its `replicate: %%(N)s` is expanded with the stage's `N: 2` - two copies instead of three, and the "
+                   "aggregating consumer receives two" % (fn.name, ["global"] + kinds),
+                   construct="%s: scope = global < stage < component" % fn.name)
 
     # ---------------- R5 -------------------------------------------------------------------------------
     # the relative spelling '<producer>:<method>' denotes a producer in the consumer's OWN stage; it may be registered
